@@ -248,6 +248,7 @@ def _reg(v):
 
 
 PI_VAR = _reg(Var("pi", "pi"))
+INVPI_VAR = _reg(Var("invpi", "invpi"))     # 1/pi, with the rewrite pi * invpi -> 1
 
 
 class Poly:
@@ -452,6 +453,9 @@ class Poly:
                 raise ZeroDivisionError("division by zero")
             inv = c.inverse()
             return Poly({m: v * inv for m, v in self.t.items()}, False)
+        if len(o.t) == 1 and list(o.t)[0] == ((PI_VAR.id, 1),):
+            c2 = list(o.t.values())[0]
+            return self * Poly({((INVPI_VAR.id, 1),): c2.inverse()}, False)
         if len(o.t) == 1:
             # division by a single monomial in non-trig variables that divides every term
             (m2, c2), = o.t.items()
@@ -733,6 +737,8 @@ class Unsupported(Exception):
 def _var_value(v, env):
     if v.kind == "pi":
         return math.pi
+    if v.kind == "invpi":
+        return 1 / math.pi
     if v.kind == "cos":
         return math.cos(env[v.base.id] / v.denom)
     if v.kind == "sin":
@@ -767,6 +773,12 @@ def _mono_mul(m1, m2):
     d = dict(m1)
     for v, e in m2:
         d[v] = d.get(v, 0) + e
+    if PI_VAR.id in d and INVPI_VAR.id in d:
+        k = min(d[PI_VAR.id], d[INVPI_VAR.id])
+        for v in (PI_VAR.id, INVPI_VAR.id):
+            d[v] -= k
+            if not d[v]:
+                del d[v]
     res = [(d, _ONE)]
     # reduce sines
     for v in list(d):
